@@ -8,7 +8,7 @@ from harness.drivers import c04
 chk = Check("C04X")
 base = {"op": "none", "kind": "cp", "shape": [], "rank": [], "family": "generic", "how": "function", "mode": 0, "operand": "none", "odim": 0,
         "keep": False, "copy": False, "npad": 0, "padb": False, "lens": [], "maxrank": 0, "thr": 0, "listin": False,
-        "fshapes": [], "coreshape": [], "pshapes": [], "rshapes": [], "mag": 0}
+        "fshapes": [], "coreshape": [], "pshapes": [], "rshapes": [], "mag": 0, "omix": "none", "steps": []}
 def cfg(**kw):
     c = dict(base); c.update(kw); return c
 evs = []
@@ -42,6 +42,13 @@ mut(v, "compress_truncated", lambda e: e["out"]["recon"][1]["q"].__setitem__(0, 
 mut(v, "compress_domain", lambda e: e["cfg"].__setitem__("maxrank", 1))
 g = run("good_mag", cfg(op="normalize", kind="tucker", shape=[2, 3], rank=[2, 2], family="generic", mag=-70, fshapes=[[2, 2], [3, 2]], coreshape=[2, 2]), seed=9)
 mut(g, "mag_unnormalised", lambda e: e["out"]["cn"][0].__setitem__(0, 3))
+q2 = run("good_seq", cfg(op="sequence", shape=[2, 3], rank=[2], mode=1, odim=2, steps=["N", "M", "N"], fshapes=[[2, 2], [3, 2]]))
+mut(q2, "seq_second_normalize_noop", lambda e: e["out"]["steps"][2]["cn"][1].__setitem__(0, 4 * 10**8))
+mut(q2, "seq_dense", lambda e: e["out"]["steps"][1]["dense"]["q"].__setitem__(0, e["out"]["steps"][1]["dense"]["q"][0] + 100))
+o2 = run("good_omix", cfg(op="tucker_mode_dot", kind="tucker", shape=[2, 3], rank=[2, 1], how="tuple", mode=1, operand="vector", keep=True, omix="real_cplx",
+                          fshapes=[[2, 2], [3, 1]], coreshape=[2, 1]))
+mut(o2, "omix_imag_lost", lambda e: e["out"]["dense_im"].__setitem__("q", [0] * len(e["out"]["dense_im"]["q"])))
+mut(o2, "omix_dtype", lambda e: e["out"].__setitem__("dtype", "float64"))
 good = {e["id"] for e in evs if e["id"].startswith("good")}
 rej = chk.validate("TransformsTrace", evs)
 for r in sorted(rej): print(r[:2])
